@@ -16,7 +16,7 @@ func init() {
 	fw.Register(&fw.Prop{
 		ID:       "C03",
 		Rule:     "the controller-message corpus of C01 (all kinds, boundary-biased values in every field, every optional part present/absent, every match-field constructor with and without mask, all NAT range subsets, learn specs of every kind, conntrack with immediate/field zone) is built through the API; the encoding is compared byte for byte with the reference encoder and the reference decoder's tree with the recipe. distinct = hash(recipe without xid); non-trivial = at least one nested element or one field different from its constructor default",
-		NumCases: func(tier string, seed uint64) int { return nCases(tier, 60000, 16000000) },
+		NumCases: func(tier string, seed uint64) int { return nCases(tier, 300000, 16000000) },
 		Gen:      func(tier string, seed uint64, i int) any { return ctrlRecipe(3, tier, seed, i) },
 		NewCase:  func() any { return new(rec.Rec) },
 		Eval:     c03Eval,
